@@ -11,6 +11,7 @@ import LogosModel.Strip
 import LogosModel.Derive
 import LogosModel.Api
 import LogosModel.CertP
+import LogosModel.FastCheck
 import Std.Data.HashMap
 import LogosModel.Source
 import Std.Data.HashSet
@@ -152,10 +153,6 @@ def certVerdict (c : Case) (fuel : Nat) : String :=
     else if !wfB G then "FAIL wf"
     else s!"FAIL {(firstBad G prios C).getD "?"}"
 
-instance : Hashable U where
-  hash u := match u with
-    | .s0 => 0 | .c1 => 1 | .c2 => 2 | .c3 => 3 | .e0 => 4 | .ed => 5 | .f0 => 6 | .f4 => 7 | .dead => 8
-
 /-- untrusted search for the closure of `(s0, norm r)` under viable byte steps -/
 partial def uclosure (work : List (U × Re)) (seen : Std.HashSet (U × Re)) (fuel : Nat) :
     Option (Std.HashSet (U × Re)) :=
@@ -177,7 +174,7 @@ def utf8Verdict (h : Hir) : String :=
   let r := h.lower
   match uclosure [(.s0, norm r)] {} 20000 with
   | none => "U"
-  | some S => if utf8ClosedB S.toList r then "1" else "0"
+  | some S => if utf8ClosedBFast S.toList r then "1" else "0"
 
 def hexOf (w : List Nat) : String :=
   if w.isEmpty then "-" else
@@ -231,7 +228,7 @@ def tieVerdict (c : Case) : String :=
       let tops := (ns.filter fun p => p.2 == mx).map fun p => toString p.1
       s!"TIE {hexOf w} {",".intercalate tops}"
     else "BADWITNESS"
-  | (none, some S) => if tieFreeB S.toList prios D then s!"FREE {S.size}" else "CHECKFAIL"
+  | (none, some S) => if tieFreeBFast S.toList prios D then s!"FREE {S.size}" else "CHECKFAIL"
   | (none, none) => "UNKNOWN"
 
 /-- BFS for a distinguishing string of two regexes -/
@@ -247,16 +244,16 @@ partial def eqSearch (queue : Array ((Re × Re) × List Nat)) (i : Nat)
     eqSearch queue (i+1) seen (fuel - 1)
   else (none, some seen)
 
-def equivVerdict (c : Case) (i j : Nat) : String :=
+def equivVerdict (c : Case) (i j : Nat) (fuel : Nat := 50000) : String :=
   match c.hirs[i]?, c.hirs[j]? with
   | some hi, some hj =>
     if hi.hasLook || hj.hasLook then "LOOK" else
     let r := hi.lower
     let s := hj.lower
     let p0 := (norm r, norm s)
-    match eqSearch #[(p0, [])] 0 (({} : Std.HashSet (Re × Re)).insert p0) 50000 with
+    match eqSearch #[(p0, [])] 0 (({} : Std.HashSet (Re × Re)).insert p0) fuel with
     | (some w, _) => if matchesB r w != matchesB s w then s!"NE {hexOf w} {matchesB r w} {matchesB s w}" else "BADWITNESS"
-    | (none, some S) => if equivB S.toList r s then s!"EQ {S.size}" else "CHECKFAIL"
+    | (none, some S) => if equivBFast S.toList r s then s!"EQ {S.size}" else "CHECKFAIL"
     | (none, none) => "UNKNOWN"
   | _, _ => "NOLEAF"
 
@@ -317,6 +314,7 @@ def answer (c : Case) (q : List String) : String :=
   | ["COMPLETE", hex] => completeAnswer c (unhex hex)
   | ["TIE"] => tieVerdict c
   | ["EQUIV", i, j] => equivVerdict c i.toNat! j.toNat!
+  | ["EQUIV", i, j, f] => equivVerdict c i.toNat! j.toNat! f.toNat!
   | ["MATCH", i, hex] => matchVerdict c i.toNat! (unhex hex)
   | ["CLSOK"] => " ".intercalate (c.hirs.toList.map fun h => if h.clsOK then "1" else "0")
   | ["GREEDY"] => " ".intercalate (c.hirs.toList.map fun h => if h.greedyFixed then "1" else "0")
